@@ -941,3 +941,748 @@ def structural_subs_on_params(tree: Tree, module_prefixes: tuple[str, ...]) -> l
                         continue
                 out.append({"fn": fn, "node": node, "key": k.id, "callers": unsafe_callers or ["(an argument of the expression: arbitrary)"]})
     return out
+
+
+# --------------------------------------------------------------------------- model execution
+#
+# Rules about small imperative hooks (the substitution / hashing hooks of the decorator) state what
+# the hook RETURNS for which arguments.  Instead of matching one spelling of the loop, the hook is
+# interpreted - statement by statement, by this file, nothing of the package is imported or run - on
+# MODEL objects that the rule constructs (an instance with a few field values, arguments that report
+# a replacement or not, a rule that contains some of them ...) and its result is compared with the
+# result the specification gives for the same model.  Helper functions of the package are entered,
+# so an extracted helper, a comprehension instead of a loop, guard clauses instead of nesting,
+# `append` instead of an index store are all the same to the rule.  Anything outside the interpreted
+# subset of Python, or any object/callable the rule gave no model for, is a ModelError (fail closed).
+
+
+class ModelError(AnalysisError):
+    """The interpreted function leaves the modelled subset (construct or object without a model)."""
+
+
+class ModelRaise(Exception):
+    """The interpreted code raises an exception (``kind`` = class name)."""
+
+    def __init__(self, kind: str, msg: str = "") -> None:
+        super().__init__(f"{kind}: {msg}" if msg else kind)
+        self.kind = kind
+
+
+class MObj:
+    """An object of the model world.  ``attrs``: attribute -> value; a Python callable value is a
+    method taking (args, kwargs).  ``open`` objects stand for rich objects (SymPy expressions): reading
+    an attribute without a model is a ModelError; closed objects raise AttributeError instead.
+    Equality and hash are identity."""
+
+    def __init__(self, label: str, attrs: dict | None = None, kinds=(), open: bool = True, truth: bool = True, hashable: bool = True) -> None:  # noqa: A002
+        self.label = label
+        self.attrs = dict(attrs or {})
+        self.kinds = set(kinds)
+        self.open = open
+        self.truth = truth
+        self.hashable = hashable
+        self.reads: list[str] = []
+
+    def __repr__(self) -> str:
+        return f"<{self.label}>"
+
+
+class MRef:
+    """A module-level name without a model value (an external class, a repo class): compared by name."""
+
+    def __init__(self, name: str) -> None:
+        self.name = name
+
+    def __eq__(self, other) -> bool:
+        return isinstance(other, MRef) and other.name == self.name
+
+    def __hash__(self) -> int:
+        return hash(("MRef", self.name))
+
+    def __repr__(self) -> str:
+        return f"<{self.name}>"
+
+
+class _FuncRef:
+    def __init__(self, fn: FuncInfo | None, node: ast.AST | None = None, env: dict | None = None, scope: FuncInfo | None = None) -> None:
+        self.fn, self.node, self.env, self.scope = fn, node, env, scope
+
+
+_BUILTIN_KINDS = {
+    dict: {"dict", "collections.abc.Mapping", "collections.abc.MutableMapping", "typing.Mapping", "collections.abc.Iterable", "collections.abc.Collection"},
+    list: {"list", "collections.abc.Sequence", "collections.abc.Iterable", "collections.abc.Collection"},
+    tuple: {"tuple", "collections.abc.Sequence", "collections.abc.Iterable", "collections.abc.Collection"},
+    set: {"set", "collections.abc.Set", "collections.abc.Iterable", "collections.abc.Collection"},
+    frozenset: {"frozenset", "collections.abc.Set", "collections.abc.Iterable", "collections.abc.Collection"},
+    str: {"str"},
+    bool: {"bool", "int"},
+    int: {"int"},
+    type(None): {"NoneType"},
+}
+_SIGNAL_BREAK, _SIGNAL_CONTINUE = ("break",), ("continue",)
+
+
+class ModelExec:
+    """Interpreter of a small Python subset over model values (None, bool, int, str, tuple, list, dict,
+    set, MObj, MRef).
+
+    ``externals``: resolved dotted name (or bare name) -> Python callable(args, kwargs) modelling an
+    external function.  ``intercept(fn, args, kwargs)`` is asked before a function of the package is
+    entered and may return ``(True, value)`` to model the call instead."""
+
+    def __init__(self, tree: Tree, externals: dict | None = None, intercept=None, max_depth: int = 8, max_steps: int = 200_000) -> None:
+        self.tree = tree
+        self.externals = {**self._default_externals(), **(externals or {})}
+        self.intercept = intercept
+        self.max_depth = max_depth
+        self.max_steps = max_steps
+        self.steps = 0
+        self.entered: list[str] = []  # qualnames of the package functions that were interpreted
+
+    # ------------------------------------------------------------------ model of a few externals
+    @staticmethod
+    def _default_externals() -> dict:
+        def isclass(args, kwargs):
+            return isinstance(args[0], MObj) and "class" in args[0].kinds or isinstance(args[0], MRef)
+
+        def is_dataclass(args, kwargs):
+            return isinstance(args[0], MObj) and "__dataclass_fields__" in args[0].attrs
+
+        def fields(args, kwargs):
+            if isinstance(args[0], MObj) and "__dataclass_fields__" in args[0].attrs:
+                return tuple(args[0].attrs["__dataclass_fields__"])
+            raise ModelRaise("TypeError", "must be called with a dataclass type or instance")
+
+        def aresame(args, kwargs):
+            return args[0] is args[1] or (not isinstance(args[0], MObj) and not isinstance(args[1], MObj) and type(args[0]) is type(args[1]) and args[0] == args[1])
+
+        return {"inspect.isclass": isclass, "dataclasses.is_dataclass": is_dataclass, "dataclasses.fields": fields, "sympy.core.basic._aresame": aresame}
+
+    # ------------------------------------------------------------------ values
+    def truth(self, v) -> bool:
+        if isinstance(v, MObj):
+            if "__bool__" in v.attrs:
+                return bool(v.attrs["__bool__"]([], {}))
+            if "__len__" in v.attrs:
+                return bool(v.attrs["__len__"]([], {}))
+            return v.truth
+        if isinstance(v, (MRef, _FuncRef)) or callable(v):
+            return True
+        return bool(v)
+
+    def kinds_of(self, v) -> set:
+        if isinstance(v, MObj):
+            return v.kinds
+        for t, names in _BUILTIN_KINDS.items():
+            if type(v) is t:
+                return names
+        return set()
+
+    def iterate(self, v, node=None) -> list:
+        if isinstance(v, (list, tuple)):
+            return list(v)
+        if isinstance(v, dict):
+            return list(v.keys())
+        if isinstance(v, (set, frozenset)):
+            return sorted(v, key=repr)
+        if isinstance(v, str):
+            return list(v)
+        if isinstance(v, MObj) and "__iter__" in v.attrs:
+            return list(v.attrs["__iter__"]([], {}))
+        raise ModelError(f"iteration over {v!r} has no model" + (f" (`{unparse(node)[:50]}`)" if node is not None else ""))
+
+    def contains(self, container, item) -> bool:
+        if isinstance(container, MObj):
+            if "__contains__" in container.attrs:
+                return bool(container.attrs["__contains__"]([item], {}))
+            raise ModelError(f"`in {container!r}` has no model")
+        if isinstance(container, (dict, set, frozenset)):
+            if isinstance(item, MObj) and not item.hashable:
+                raise ModelRaise("TypeError", f"unhashable {item!r}")
+            if isinstance(item, (list, dict, set)):
+                raise ModelRaise("TypeError", "unhashable")
+            return item in container
+        if isinstance(container, (list, tuple)):
+            return any(x is item or (not isinstance(x, MObj) and not isinstance(item, MObj) and x == item) for x in container)
+        if isinstance(container, str) and isinstance(item, str):
+            return item in container
+        raise ModelError(f"`in` on {type(container).__name__} has no model")
+
+    def getattr(self, base, name: str, node=None):
+        if isinstance(base, MObj):
+            base.reads.append(name)
+            if name in base.attrs:
+                return base.attrs[name]
+            if base.open:
+                raise ModelError(f"attribute .{name} of {base!r} has no model" + (f" (`{unparse(node)[:60]}`)" if node is not None else ""))
+            raise ModelRaise("AttributeError", f"{base!r} has no attribute {name}")
+        if isinstance(base, MRef):
+            return MRef(f"{base.name}.{name}")
+        if isinstance(base, dict) and name in {"get", "items", "keys", "values", "update", "pop", "setdefault", "copy"}:
+            return self._dict_method(base, name)
+        if isinstance(base, list) and name in {"append", "extend", "insert", "copy", "index", "pop"}:
+            return self._list_method(base, name)
+        if isinstance(base, (set,)) and name in {"add", "update", "copy"}:
+            return {"add": lambda a, k: base.add(a[0]), "update": lambda a, k: base.update(self.iterate(a[0])), "copy": lambda a, k: set(base)}[name]
+        if isinstance(base, str) and name == "join":
+            return lambda a, k: base.join(str(x) for x in self.iterate(a[0]))
+        if isinstance(base, str) and name in {"startswith", "endswith"}:
+            return lambda a, k: getattr(base, name)(*a)
+        raise ModelError(f"attribute .{name} of a {type(base).__name__} has no model" + (f" (`{unparse(node)[:60]}`)" if node is not None else ""))
+
+    def _hash_check(self, key) -> None:
+        if isinstance(key, (list, dict, set)) or (isinstance(key, MObj) and not key.hashable):
+            raise ModelRaise("TypeError", f"unhashable {key!r}")
+
+    def _dict_method(self, d: dict, name: str):
+        def get(a, k):
+            self._hash_check(a[0])
+            return d.get(a[0], a[1] if len(a) > 1 else None)
+
+        def update(a, k):
+            for src in a:
+                d.update(src if isinstance(src, dict) else dict(self.iterate(src)))
+            d.update(k)
+
+        def pop(a, k):
+            if a[0] in d:
+                return d.pop(a[0])
+            if len(a) > 1:
+                return a[1]
+            raise ModelRaise("KeyError", repr(a[0]))
+
+        return {"get": get, "items": lambda a, k: [(x, y) for x, y in d.items()], "keys": lambda a, k: list(d.keys()), "values": lambda a, k: list(d.values()),
+                "update": update, "pop": pop, "setdefault": lambda a, k: d.setdefault(a[0], a[1] if len(a) > 1 else None), "copy": lambda a, k: dict(d)}[name]
+
+    def _list_method(self, lst: list, name: str):
+        def index(a, k):
+            for i, x in enumerate(lst):
+                if x is a[0] or (not isinstance(x, MObj) and x == a[0]):
+                    return i
+            raise ModelRaise("ValueError", "not in list")
+
+        return {"append": lambda a, k: lst.append(a[0]), "extend": lambda a, k: lst.extend(self.iterate(a[0])), "insert": lambda a, k: lst.insert(a[0], a[1]),
+                "copy": lambda a, k: list(lst), "index": index, "pop": lambda a, k: lst.pop(*a)}[name]
+
+    # ------------------------------------------------------------------ builtins
+    def _builtin(self, name: str):
+        it = self.iterate
+
+        def isinstance_(a, k):
+            classes = a[1] if isinstance(a[1], tuple) else (a[1],)
+            kinds = self.kinds_of(a[0])
+            for c in classes:
+                cname = c.name if isinstance(c, MRef) else c[1] if isinstance(c, tuple) and c and c[0] == "builtin" else None
+                if cname is None:
+                    raise ModelError(f"isinstance(..., {c!r}) has no model")
+                if cname in kinds or cname.split(".")[-1] in {x.split(".")[-1] for x in kinds} or cname == "object":
+                    return True
+            return False
+
+        def hasattr_(a, k):
+            if isinstance(a[0], MObj):
+                a[0].reads.append(a[1])
+                if a[1] in a[0].attrs:
+                    return True
+                if a[0].open and a[1] not in a[0].attrs.get("__lacks__", ()):
+                    raise ModelError(f"hasattr({a[0]!r}, {a[1]!r}) has no model")
+                return False
+            raise ModelError(f"hasattr on {type(a[0]).__name__} has no model")
+
+        def getattr_(a, k):
+            try:
+                return self.getattr(a[0], a[1])
+            except ModelRaise:
+                if len(a) > 2:
+                    return a[2]
+                raise
+
+        def setattr_(a, k):
+            if not isinstance(a[0], MObj):
+                raise ModelError("setattr on a non-model object")
+            a[0].attrs[a[1]] = a[2]
+
+        def hash_(a, k):
+            self._hash_check(a[0])
+            return 0
+
+        def super_(a, k):
+            inst = a[1] if len(a) > 1 else None
+            if isinstance(inst, MObj) and "__super__" in inst.attrs:
+                return inst.attrs["__super__"]
+            raise ModelError("super() has no model here")
+
+        def map_(a, k):
+            cols = [it(x) for x in a[1:]]
+            return [self.apply(a[0], list(xs), {}) for xs in zip(*cols)]
+
+        def sum_(a, k):
+            total = a[1] if len(a) > 1 else 0
+            for x in it(a[0]):
+                total = total + x
+            return total
+
+        table = {
+            "bool": lambda a, k: self.truth(a[0]) if a else False,
+            "any": lambda a, k: any(self.truth(x) for x in it(a[0])),
+            "all": lambda a, k: all(self.truth(x) for x in it(a[0])),
+            "list": lambda a, k: list(it(a[0])) if a else [],
+            "tuple": lambda a, k: tuple(it(a[0])) if a else (),
+            "set": lambda a, k: set(it(a[0])) if a else set(),
+            "frozenset": lambda a, k: frozenset(it(a[0])) if a else frozenset(),
+            "dict": lambda a, k: {**(dict(a[0]) if a and isinstance(a[0], dict) else dict(it(a[0])) if a else {}), **k},
+            "len": lambda a, k: len(it(a[0])),
+            "enumerate": lambda a, k: list(enumerate(it(a[0]), *(a[1:]), **k)),
+            "zip": lambda a, k: list(zip(*[it(x) for x in a])),
+            "range": lambda a, k: list(range(*a)),
+            "reversed": lambda a, k: list(reversed(it(a[0]))),
+            "isinstance": isinstance_, "hasattr": hasattr_, "getattr": getattr_, "setattr": setattr_, "hash": hash_, "super": super_, "map": map_, "sum": sum_,
+            "filter": lambda a, k: [x for x in it(a[1]) if (self.truth(x) if a[0] is None else self.truth(self.apply(a[0], [x], {})))],
+            "callable": lambda a, k: callable(a[0]) or isinstance(a[0], _FuncRef) or (isinstance(a[0], MObj) and "__call__" in a[0].attrs),
+            "str": lambda a, k: str(a[0]) if a else "",
+            "repr": lambda a, k: repr(a[0]),
+            "id": lambda a, k: id(a[0]),
+            "iter": lambda a, k: list(it(a[0])),
+        }
+        return table.get(name)
+
+    # ------------------------------------------------------------------ calls
+    def apply(self, f, args: list, kwargs: dict, depth: int = 0, node=None):
+        if isinstance(f, _FuncRef):
+            return self.call_function(f, args, kwargs, depth + 1)
+        if isinstance(f, tuple) and f and f[0] == "builtin":
+            return self._builtin(f[1])(args, kwargs)
+        if isinstance(f, MObj) and "__call__" in f.attrs:
+            return f.attrs["__call__"](args, kwargs)
+        if isinstance(f, MRef):
+            ext = self.externals.get(f.name) or self.externals.get(f.name.split(".")[-1].split("::")[-1])
+            if ext is not None:
+                return ext(args, kwargs)
+            raise ModelError(f"call of `{f.name}` has no model" + (f" (`{unparse(node)[:60]}`)" if node is not None else ""))
+        if callable(f):
+            return f(args, kwargs)
+        raise ModelError(f"call of {f!r} has no model" + (f" (`{unparse(node)[:60]}`)" if node is not None else ""))
+
+    def call_function(self, f, args: list, kwargs: dict | None = None, depth: int = 0):
+        """Interpret a function of the package (FuncInfo or internal closure) on model arguments."""
+        kwargs = dict(kwargs or {})
+        ref = f if isinstance(f, _FuncRef) else _FuncRef(f)
+        fn, node = ref.fn, ref.node if ref.node is not None else ref.fn.node
+        scope = fn if fn is not None else ref.scope
+        if fn is not None and self.intercept is not None:
+            handled, value = self.intercept(fn, args, kwargs)
+            if handled:
+                return value
+        if depth > self.max_depth:
+            raise ModelError(f"call depth exceeded at {fn.qual if fn else '<closure>'}")
+        if fn is not None:
+            self.entered.append(fn.qual)
+        env = dict(ref.env or {})
+        env.update(self._bind(node, args, kwargs, scope))
+        sig = self.block(node.body, env, scope, depth)
+        if sig is not None and sig[0] == "return":
+            return sig[1]
+        return None
+
+    def _bind(self, node, args: list, kwargs: dict, scope) -> dict:
+        a = node.args
+        pos = [*a.posonlyargs, *a.args]
+        env: dict = {}
+        if len(args) > len(pos) and a.vararg is None:
+            raise ModelRaise("TypeError", f"{getattr(node, 'name', '<lambda>')}() takes {len(pos)} positional arguments but {len(args)} were given")
+        for p, v in zip(pos, args):
+            env[p.arg] = v
+        if a.vararg is not None:
+            env[a.vararg.arg] = tuple(args[len(pos):])
+        names = {p.arg for p in [*a.args, *a.kwonlyargs]}
+        extra = {}
+        for k, v in kwargs.items():
+            if k in names:
+                if k in env:
+                    raise ModelRaise("TypeError", f"multiple values for argument {k}")
+                env[k] = v
+            elif a.kwarg is not None:
+                extra[k] = v
+            else:
+                raise ModelRaise("TypeError", f"unexpected keyword argument {k}")
+        if a.kwarg is not None:
+            env[a.kwarg.arg] = extra
+        defaults = dict(zip([p.arg for p in pos][len(pos) - len(a.defaults):], a.defaults))
+        for p, d in zip(a.kwonlyargs, a.kw_defaults):
+            if d is not None:
+                defaults[p.arg] = d
+        for p in [*pos, *a.kwonlyargs]:
+            if p.arg not in env:
+                if p.arg not in defaults:
+                    raise ModelRaise("TypeError", f"missing argument {p.arg}")
+                env[p.arg] = self.ev(defaults[p.arg], {}, scope, 0)
+        return env
+
+    # ------------------------------------------------------------------ statements
+    def block(self, body: list, env: dict, fn, depth: int):
+        for st in body:
+            sig = self.stmt(st, env, fn, depth)
+            if sig is not None:
+                return sig
+        return None
+
+    def stmt(self, st: ast.stmt, env: dict, fn, depth: int):  # noqa: C901, PLR0911, PLR0912
+        self.steps += 1
+        if self.steps > self.max_steps:
+            raise ModelError("step budget of the model execution exhausted")
+        if isinstance(st, ast.Expr):
+            self.ev(st.value, env, fn, depth)
+            return None
+        if isinstance(st, ast.Assign):
+            v = self.ev(st.value, env, fn, depth)
+            for t in st.targets:
+                self.assign(t, v, env, fn, depth)
+            return None
+        if isinstance(st, ast.AnnAssign):
+            if st.value is not None:
+                self.assign(st.target, self.ev(st.value, env, fn, depth), env, fn, depth)
+            return None
+        if isinstance(st, ast.AugAssign):
+            load = ast.copy_location(type(st.target)(**{**{f: getattr(st.target, f) for f in st.target._fields}, "ctx": ast.Load()}), st.target)
+            cur = self.ev(load, env, fn, depth)
+            rhs = self.ev(st.value, env, fn, depth)
+            if isinstance(cur, list) and isinstance(st.op, ast.Add):
+                cur.extend(self.iterate(rhs))  # in place, like list.__iadd__
+                return None
+            self.assign(st.target, self.binop(st.op, cur, rhs, st), env, fn, depth)
+            return None
+        if isinstance(st, ast.If):
+            return self.block(st.body if self.truth(self.ev(st.test, env, fn, depth)) else st.orelse, env, fn, depth)
+        if isinstance(st, ast.For):
+            broke = False
+            for item in self.iterate(self.ev(st.iter, env, fn, depth), st.iter):
+                self.assign(st.target, item, env, fn, depth)
+                sig = self.block(st.body, env, fn, depth)
+                if sig is _SIGNAL_BREAK:
+                    broke = True
+                    break
+                if sig is not None and sig is not _SIGNAL_CONTINUE:
+                    return sig
+            if not broke and st.orelse:
+                return self.block(st.orelse, env, fn, depth)
+            return None
+        if isinstance(st, ast.While):
+            while self.truth(self.ev(st.test, env, fn, depth)):
+                self.steps += 1
+                if self.steps > self.max_steps:
+                    raise ModelError("step budget of the model execution exhausted (while loop)")
+                sig = self.block(st.body, env, fn, depth)
+                if sig is _SIGNAL_BREAK:
+                    return None
+                if sig is not None and sig is not _SIGNAL_CONTINUE:
+                    return sig
+            return self.block(st.orelse, env, fn, depth) if st.orelse else None
+        if isinstance(st, ast.Return):
+            return ("return", self.ev(st.value, env, fn, depth) if st.value is not None else None)
+        if isinstance(st, ast.Break):
+            return _SIGNAL_BREAK
+        if isinstance(st, ast.Continue):
+            return _SIGNAL_CONTINUE
+        if isinstance(st, (ast.Pass, ast.Import, ast.ImportFrom, ast.Global, ast.Nonlocal)):
+            return None
+        if isinstance(st, ast.Raise):
+            exc = st.exc.func if isinstance(st.exc, ast.Call) else st.exc
+            raise ModelRaise(unparse(exc).split(".")[-1] if exc is not None else "Exception", "raised by the interpreted code")
+        if isinstance(st, ast.Assert):
+            if not self.truth(self.ev(st.test, env, fn, depth)):
+                raise ModelRaise("AssertionError")
+            return None
+        if isinstance(st, ast.FunctionDef):
+            env[st.name] = _FuncRef(None, st, env, fn)
+            return None
+        if isinstance(st, ast.Try):
+            try:
+                sig = self.block(st.body, env, fn, depth)
+                if sig is None and st.orelse:
+                    sig = self.block(st.orelse, env, fn, depth)
+            except ModelRaise as exc:
+                for h in st.handlers:
+                    names = [] if h.type is None else [unparse(e).split(".")[-1] for e in (h.type.elts if isinstance(h.type, ast.Tuple) else [h.type])]
+                    if h.type is None or exc.kind in names or "Exception" in names or "BaseException" in names:
+                        if h.name:
+                            env[h.name] = MObj(f"exception {exc.kind}", kinds={exc.kind}, open=True)
+                        sig = self.block(h.body, env, fn, depth)
+                        break
+                else:
+                    if st.finalbody:
+                        self.block(st.finalbody, env, fn, depth)
+                    raise
+            if st.finalbody:
+                fsig = self.block(st.finalbody, env, fn, depth)
+                if fsig is not None:
+                    return fsig
+            return sig
+        raise ModelError(f"statement {type(st).__name__} (`{unparse(st)[:50]}`) is outside the interpreted subset")
+
+    def assign(self, target, v, env: dict, fn, depth: int) -> None:
+        if isinstance(target, ast.Name):
+            env[target.id] = v
+        elif isinstance(target, (ast.Tuple, ast.List)):
+            items = self.iterate(v, target)
+            star = [i for i, t in enumerate(target.elts) if isinstance(t, ast.Starred)]
+            if not star:
+                if len(items) != len(target.elts):
+                    raise ModelRaise("ValueError", f"unpacking {len(items)} values into {len(target.elts)} targets")
+                for t, x in zip(target.elts, items):
+                    self.assign(t, x, env, fn, depth)
+            else:
+                s = star[0]
+                after = len(target.elts) - s - 1
+                if len(items) < len(target.elts) - 1:
+                    raise ModelRaise("ValueError", "not enough values to unpack")
+                for t, x in zip(target.elts[:s], items[:s]):
+                    self.assign(t, x, env, fn, depth)
+                self.assign(target.elts[s].value, list(items[s: len(items) - after]), env, fn, depth)
+                for t, x in zip(target.elts[s + 1:], items[len(items) - after:]):
+                    self.assign(t, x, env, fn, depth)
+        elif isinstance(target, ast.Subscript):
+            base = self.ev(target.value, env, fn, depth)
+            if isinstance(target.slice, ast.Slice):
+                raise ModelError("slice assignment is outside the interpreted subset")
+            idx = self.ev(target.slice, env, fn, depth)
+            if isinstance(base, list):
+                if not isinstance(idx, int) or isinstance(idx, bool) or not -len(base) <= idx < len(base):
+                    raise ModelRaise("IndexError", "list assignment index out of range")
+                base[idx] = v
+            elif isinstance(base, dict):
+                self._hash_check(idx)
+                base[idx] = v
+            elif isinstance(base, MObj) and "__setitem__" in base.attrs:
+                base.attrs["__setitem__"]([idx, v], {})
+            elif isinstance(base, tuple):
+                raise ModelRaise("TypeError", "'tuple' object does not support item assignment")
+            else:
+                raise ModelError(f"item assignment on {base!r} has no model")
+        elif isinstance(target, ast.Attribute):
+            base = self.ev(target.value, env, fn, depth)
+            if not isinstance(base, MObj):
+                raise ModelError(f"attribute assignment on {base!r} has no model")
+            base.attrs[target.attr] = v
+        else:
+            raise ModelError(f"assignment target {type(target).__name__}")
+
+    # ------------------------------------------------------------------ expressions
+    def binop(self, op, a, b, node):
+        if isinstance(a, (MObj, MRef)) or isinstance(b, (MObj, MRef)):
+            hook = {ast.Add: "__add__", ast.Sub: "__sub__", ast.Mult: "__mul__", ast.Div: "__truediv__", ast.Pow: "__pow__", ast.BitOr: "__or__", ast.BitAnd: "__and__"}.get(type(op))
+            if isinstance(a, MObj) and hook in a.attrs:
+                return a.attrs[hook]([b], {})
+            raise ModelError(f"arithmetic on model objects (`{unparse(node)[:50]}`) has no model")
+        try:
+            if isinstance(op, ast.Add):
+                return a + b
+            if isinstance(op, ast.Sub):
+                return a - b
+            if isinstance(op, ast.Mult):
+                return a * b
+            if isinstance(op, ast.BitOr):
+                return a | b
+            if isinstance(op, ast.BitAnd):
+                return a & b
+            if isinstance(op, ast.BitXor):
+                return a ^ b
+            if isinstance(op, ast.Mod) and isinstance(a, int):
+                return a % b
+            if isinstance(op, ast.FloorDiv):
+                return a // b
+        except TypeError as exc:
+            raise ModelRaise("TypeError", str(exc)) from None
+        except ZeroDivisionError:
+            raise ModelRaise("ZeroDivisionError") from None
+        raise ModelError(f"operator {type(op).__name__} is outside the interpreted subset")
+
+    def compare(self, op, a, b, node) -> bool:
+        if isinstance(op, ast.Is):
+            return a is b or (isinstance(a, MRef) and a == b)
+        if isinstance(op, ast.IsNot):
+            return not (a is b or (isinstance(a, MRef) and a == b))
+        if isinstance(op, ast.In):
+            return self.contains(b, a)
+        if isinstance(op, ast.NotIn):
+            return not self.contains(b, a)
+        if isinstance(op, (ast.Eq, ast.NotEq)):
+            if isinstance(a, MObj) and "__eq__" in a.attrs:
+                same = bool(a.attrs["__eq__"]([b], {}))
+            elif isinstance(b, MObj) and "__eq__" in b.attrs:
+                same = bool(b.attrs["__eq__"]([a], {}))
+            elif isinstance(a, MObj) or isinstance(b, MObj):
+                same = a is b
+            else:
+                same = type(a) is type(b) and a == b or (isinstance(a, (int, bool)) and isinstance(b, (int, bool)) and a == b) or (isinstance(a, (list, tuple)) and type(a) is type(b) and a == b)
+            return same if isinstance(op, ast.Eq) else not same
+        if isinstance(a, (int, str)) and type(a) is type(b) or (isinstance(a, int) and isinstance(b, int)):
+            return {ast.Lt: a < b, ast.LtE: a <= b, ast.Gt: a > b, ast.GtE: a >= b}[type(op)]
+        raise ModelError(f"comparison `{unparse(node)[:50]}` has no model")
+
+    def ev(self, node: ast.AST, env: dict, fn, depth: int):  # noqa: C901, PLR0911, PLR0912
+        self.steps += 1
+        if self.steps > self.max_steps:
+            raise ModelError("step budget of the model execution exhausted")
+        if isinstance(node, ast.Constant):
+            if node.value is Ellipsis:
+                raise ModelError("Ellipsis")
+            return node.value
+        if isinstance(node, ast.Name):
+            if node.id in env:
+                return env[node.id]
+            return self._global(node, fn)
+        if isinstance(node, ast.Attribute):
+            chain = attr_chain(node)
+            if chain and chain.split(".")[0] not in env and fn is not None:
+                target = self.tree.resolve(fn.module, node, fn)
+                if target:
+                    return self._resolved(target)
+            return self.getattr(self.ev(node.value, env, fn, depth), node.attr, node)
+        if isinstance(node, ast.Call):
+            f = self.ev(node.func, env, fn, depth)
+            args: list = []
+            for a in node.args:
+                if isinstance(a, ast.Starred):
+                    args.extend(self.iterate(self.ev(a.value, env, fn, depth), a))
+                else:
+                    args.append(self.ev(a, env, fn, depth))
+            kwargs: dict = {}
+            for k in node.keywords:
+                v = self.ev(k.value, env, fn, depth)
+                if k.arg is None:
+                    if not isinstance(v, dict):
+                        raise ModelError(f"**{unparse(k.value)[:30]} is not a dict in the model")
+                    kwargs.update(v)
+                else:
+                    kwargs[k.arg] = v
+            return self.apply(f, args, kwargs, depth, node)
+        if isinstance(node, ast.BoolOp):
+            v = None
+            for e in node.values:
+                v = self.ev(e, env, fn, depth)
+                if isinstance(node.op, ast.And) and not self.truth(v):
+                    return v
+                if isinstance(node.op, ast.Or) and self.truth(v):
+                    return v
+            return v
+        if isinstance(node, ast.UnaryOp):
+            v = self.ev(node.operand, env, fn, depth)
+            if isinstance(node.op, ast.Not):
+                return not self.truth(v)
+            if isinstance(node.op, ast.USub) and isinstance(v, int):
+                return -v
+            raise ModelError(f"unary operator in `{unparse(node)[:40]}`")
+        if isinstance(node, ast.BinOp):
+            return self.binop(node.op, self.ev(node.left, env, fn, depth), self.ev(node.right, env, fn, depth), node)
+        if isinstance(node, ast.Compare):
+            left = self.ev(node.left, env, fn, depth)
+            for op, c in zip(node.ops, node.comparators):
+                right = self.ev(c, env, fn, depth)
+                if not self.compare(op, left, right, node):
+                    return False
+                left = right
+            return True
+        if isinstance(node, ast.IfExp):
+            return self.ev(node.body if self.truth(self.ev(node.test, env, fn, depth)) else node.orelse, env, fn, depth)
+        if isinstance(node, (ast.Tuple, ast.List, ast.Set)):
+            items: list = []
+            for e in node.elts:
+                if isinstance(e, ast.Starred):
+                    items.extend(self.iterate(self.ev(e.value, env, fn, depth), e))
+                else:
+                    items.append(self.ev(e, env, fn, depth))
+            if isinstance(node, ast.Set):
+                for x in items:
+                    self._hash_check(x)
+                return set(items)
+            return tuple(items) if isinstance(node, ast.Tuple) else items
+        if isinstance(node, ast.Dict):
+            out: dict = {}
+            for k, v in zip(node.keys, node.values):
+                if k is None:
+                    out.update(self.ev(v, env, fn, depth))
+                else:
+                    key = self.ev(k, env, fn, depth)
+                    self._hash_check(key)
+                    out[key] = self.ev(v, env, fn, depth)
+            return out
+        if isinstance(node, ast.Subscript):
+            base = self.ev(node.value, env, fn, depth)
+            if isinstance(node.slice, ast.Slice):
+                lo, hi, step = (self.ev(x, env, fn, depth) if x is not None else None for x in (node.slice.lower, node.slice.upper, node.slice.step))
+                if isinstance(base, (list, tuple, str)):
+                    return base[lo:hi:step]
+                raise ModelError("slice of a model object")
+            idx = self.ev(node.slice, env, fn, depth)
+            if isinstance(base, dict):
+                self._hash_check(idx)
+                if idx in base:
+                    return base[idx]
+                raise ModelRaise("KeyError", repr(idx))
+            if isinstance(base, (list, tuple, str)):
+                if not isinstance(idx, int) or isinstance(idx, bool):
+                    raise ModelRaise("TypeError", "indices must be integers")
+                if not -len(base) <= idx < len(base):
+                    raise ModelRaise("IndexError", "index out of range")
+                return base[idx]
+            if isinstance(base, MObj) and "__getitem__" in base.attrs:
+                return base.attrs["__getitem__"]([idx], {})
+            if isinstance(base, MRef):
+                return base  # a subscripted type (`tuple[int, ...]`)
+            raise ModelError(f"subscript of {base!r} has no model")
+        if isinstance(node, (ast.ListComp, ast.GeneratorExp, ast.SetComp, ast.DictComp)):
+            # comprehensions are evaluated eagerly: the model callables have no side effects whose order
+            # relative to the consumer of a generator could matter (they only record that they were called)
+            results: list = []
+
+            def rec(gens, env_):
+                if not gens:
+                    if isinstance(node, ast.DictComp):
+                        results.append((self.ev(node.key, env_, fn, depth), self.ev(node.value, env_, fn, depth)))
+                    else:
+                        results.append(self.ev(node.elt, env_, fn, depth))
+                    return
+                g = gens[0]
+                for item in self.iterate(self.ev(g.iter, env_, fn, depth), g.iter):
+                    env2 = dict(env_)
+                    self.assign(g.target, item, env2, fn, depth)
+                    if all(self.truth(self.ev(c, env2, fn, depth)) for c in g.ifs):
+                        rec(gens[1:], env2)
+
+            rec(list(node.generators), env)
+            if isinstance(node, ast.DictComp):
+                return dict(results)
+            if isinstance(node, ast.SetComp):
+                return set(results)
+            return results
+        if isinstance(node, ast.JoinedStr):
+            return "".join(str(v.value) if isinstance(v, ast.Constant) else str(self.ev(v.value, env, fn, depth)) for v in node.values)
+        if isinstance(node, ast.NamedExpr):
+            v = self.ev(node.value, env, fn, depth)
+            self.assign(node.target, v, env, fn, depth)
+            return v
+        if isinstance(node, ast.Lambda):
+            return _FuncRef(None, ast.FunctionDef(name="<lambda>", args=node.args, body=[ast.Return(value=node.body)], decorator_list=[]), env, fn)
+        if isinstance(node, ast.Starred):
+            raise ModelError("starred expression outside a call or display")
+        raise ModelError(f"expression {type(node).__name__} (`{unparse(node)[:50]}`) is outside the interpreted subset")
+
+    def _global(self, node: ast.Name, fn):
+        name = node.id
+        target = self.tree.resolve(fn.module, node, fn) if fn is not None else None
+        if target:
+            return self._resolved(target)
+        if name in self.externals:
+            return self.externals[name]
+        if self._builtin(name) is not None or name in {"object", "type", "int", "float"}:
+            return ("builtin", name)
+        if name in {"True", "False", "None"}:
+            return {"True": True, "False": False, "None": None}[name]
+        raise ModelError(f"name `{name}` has no model")
+
+    def _resolved(self, target: str):
+        if target in self.externals:
+            return self.externals[target]
+        if target in self.tree.funcs:
+            return _FuncRef(self.tree.funcs[target])
+        return MRef(target)
